@@ -218,6 +218,14 @@ func c10Wire(c *Ctx) {
 		for i := 0; i < n; i++ {
 			lens = append(lens, []int{5, 20, 60, 119, 120, 121, 300, 480}[c.R.N(8)])
 		}
+		if s == 1 {
+			// a burst of long lines of multi-byte text: 7 lines of 480-500 bytes (some 6 s each; the bound's own allowance
+			// of 10 s plus two charges is 22 s here, so a shortfall shows only from the sixth or seventh line on)
+			n, lens = 7, nil
+			for i := 0; i < n; i++ {
+				lens = append(lens, c.R.Range(480, 500))
+			}
+		}
 		if s == 0 {
 			// one sustained burst: 13 lines whose charge is just short of a whole number of seconds (2.99 s, 3.99 s): a hold
 			// that is a little too short each time adds up
@@ -244,7 +252,7 @@ func c10Wire(c *Ctx) {
 		for i := range prot {
 			prot[i] = true
 		}
-		toggled := (s+int(c.Seed))%2 == 1 && s != 0 // the sustained burst is protected throughout
+		toggled := (s+int(c.Seed))%2 == 1 && s > 1 // the sustained burst and the multi-byte burst are protected throughout
 		if toggled {
 			for i := 3; i < n; i++ {
 				if i == 4 || c.R.P(1, 4) {
@@ -269,7 +277,11 @@ func c10Wire(c *Ctx) {
 				// every kind of line is subject to the rule: commands of the API, replies to server PINGs, raw lines
 				pad := func(prefix string) string {
 					for len(prefix) < l {
-						prefix += "x"
+						if s == 1 && len(prefix)+3 <= l { // the charge is per BYTE: one burst is padded with three-byte characters
+							prefix += "\xe2\x82\xac"
+						} else {
+							prefix += "x"
+						}
 					}
 					return prefix
 				}
@@ -278,7 +290,7 @@ func c10Wire(c *Ctx) {
 				}
 				issuedAt[i] = time.Now()
 				form := (i + s + int(c.Seed)) % 4
-				if s == 0 { // the sustained burst: raw lines of exactly the chosen lengths
+				if s <= 1 { // the sustained burst, the multi-byte burst: raw lines of exactly the chosen lengths
 					form = 3 * (i % 2)
 				}
 				switch form {
